@@ -36,6 +36,10 @@ def _watchdog():
     while True:
         _time.sleep(5)
         if _time.time() - _HEART["t"] > _HEART["limit"]:
+            try:
+                open(os.path.join(common.ROOT, "corpus", "C09", "last_hang.txt"), "w").write(_HEART["ctx"])
+            except Exception:
+                pass
             sys.stderr.write("INFRA-FAILURE C09: a call into librebound did not return within %ds: %s\n" % (_HEART["limit"], _HEART["ctx"][:600]))
             sys.stderr.flush()
             os._exit(2)
@@ -203,14 +207,27 @@ def dims_of(system, where):
 FORCED = ["many", "hyper", "single", "massive0", "massive1", "massless0", "massless1", "zeroactive", "long", "neg", "huge", "soft", "G"]
 
 
-def gen_system(rng, physics=False, force=None):
+def gen_system(rng, physics=False, force=None, spec=None):
     """star + planets (+ test particles): list of (m, x,y,z, vx,vy,vz), N_active, testparticle_type, dt,
     crossed with the cross-cutting dimensions (particle roles, G, softening, sign of dt, start time,
     geometry, scale).  `physics`: for the to-rounding comparisons leave out what only makes sense for the
     bitwise clauses (steps longer than a period, hyperbolic fly-by, huge |t|/dt, hundreds of particles)."""
     dims = []
+    if spec is not None:
+        # deterministic values of the pairwise factors `roles`, `neg`, `feature`
+        physics = False
+        force = {"plain": "_plain", "massless0": "massless0", "massless1": "massless1", "massive0": "massive0", "massive1": "massive1",
+                 "single": "single", "zeroactive": "zeroactive"}[spec["roles"]]
+    feat = spec["feature"] if spec is not None else None
+
+    def want(name, p):
+        if spec is not None:
+            return feat == name
+        return rng.chance(p) or force == name
     npl = rng.randint(1, 4)
     ntp = rng.choice([0, 0, 1, 2])
+    if force == "_plain" or (spec is not None and spec["roles"] == "zeroactive"):
+        ntp = 0
     if force in ("single", "massive0", "massive1", "massless0", "massless1") and ntp == 0:
         ntp = 2
     if force == "zeroactive" and npl < 2:
@@ -219,6 +236,8 @@ def gen_system(rng, physics=False, force=None):
     G = rng.choice([1.0, 1.0, 1.0, 39.47841760435743, 0.3])
     if force == "G":
         G = 39.47841760435743
+    if spec is not None:
+        G = 39.47841760435743 if feat == "G" else 1.0
     if G != 1.0:
         dims.append("G != 1")
     ps = [(m0, 0.0, 0.0, 0.0, 0.0, 0.0, 0.0)]
@@ -231,7 +250,11 @@ def gen_system(rng, physics=False, force=None):
         role = "massless"
     if force == "zeroactive":
         role = "zero-mass-active"
-    many = (not physics) and (rng.chance(0.04) or force == "many")
+    if spec is not None and spec["roles"] in ("plain", "single"):
+        role = "plain" if spec["roles"] == "plain" else "massless"
+    many = (not physics) and want("many", 0.04)
+    if many and spec is not None and ntp == 0:
+        many = False                     # 'many' needs test particles: excluded pair (roles without test particles)
     if many:
         ntp = rng.randint(125, 135)       # crosses the 128-entry allocation boundary
         dims.append("N > 128 (allocation boundary)")
@@ -256,7 +279,7 @@ def gen_system(rng, physics=False, force=None):
         ps.append((m, x, y, z, vx, vy, vz))
         if not (many and i >= npl):
             a *= rng.uniform(1.6, 2.2)
-    if (not physics) and (rng.chance(0.08) or force == "hyper"):
+    if (not physics) and want("hyper", 0.08):
         # an unbound (hyperbolic) light body passing outside the system
         q, vinf = a * 1.5, math.sqrt(G * m0 / a) * 1.2
         vp = math.sqrt(vinf * vinf + 2 * G * m0 / q)
@@ -275,7 +298,9 @@ def gen_system(rng, physics=False, force=None):
     if force in ("massive0", "massless0", "massive1", "massless1"):
         tp_type = int(force[-1])
         n_active = npl + 1
-    if ntp and (rng.chance(0.1) or force == "single"):
+    if spec is not None and ntp and spec["roles"] != "single" and not force.startswith(("massive", "massless")):
+        n_active = -1
+    if ntp and ((spec is None and rng.chance(0.1)) or force == "single"):
         n_active = 1                                 # a single active body, everything else test particles
         dims.append("single active body")
     if n_active != -1:
@@ -288,18 +313,18 @@ def gen_system(rng, physics=False, force=None):
         dims.append("zero-mass active body")
     period = 2 * math.pi * amin ** 1.5 / math.sqrt(G * m0)
     dt = period * rng.uniform(0.01, 0.06)
-    if (not physics) and (rng.chance(0.07) or force == "long"):
+    if (not physics) and want("long", 0.07):
         dt = period * rng.uniform(1.1, 2.3)
         dims.append("step longer than a period")
-    if rng.chance(0.2) or force == "neg":
+    if (spec["neg"] if spec is not None else (rng.chance(0.2) or force == "neg")):
         dt = -dt
         dims.append("dt < 0")
     t0 = 0.0
-    if (not physics) and (rng.chance(0.08) or force == "huge"):
+    if (not physics) and want("huge", 0.08):
         t0 = dt * rng.uniform(1e9, 1e12)
         dims.append("|t|/dt huge")
     soft = 0.0
-    if rng.chance(0.08) or force == "soft":
+    if want("soft", 0.08):
         soft = 1e-3 * amin
         dims.append("softening != 0")
     return {"particles": ps, "N_active": n_active, "testparticle_type": tp_type, "dt": dt, "G": G, "t0": t0,
@@ -332,12 +357,31 @@ def gen_crossing(rng):
             "dt": 2 * math.pi * rng.uniform(0.01, 0.03), "dims": ["close encounters (MERCURIUS)"]}
 
 
+class LibProxy:
+    """records which functions of librebound this run calls (entry-point obligation)"""
+
+    def __init__(self, real):
+        object.__setattr__(self, "_real", real)
+        object.__setattr__(self, "used", {})
+
+    def __getattr__(self, name):
+        self.used[name] = self.used.get(name, 0) + 1
+        return getattr(self._real, name)
+
+
+PYUSED = {}
+
+
+def pyused(name):
+    PYUSED[name] = PYUSED.get(name, 0) + 1
+
+
 class World:
     """the scratch build + helpers that construct simulations and execute primitive lists"""
 
     def __init__(self, rebound, K):
         self.rb = rebound
-        self.lib = rebound.clibrebound
+        self.lib = LibProxy(rebound.clibrebound)
         self.K = K
         self.P = rebound.Particle
         self.psz = ctypes.sizeof(rebound.Particle)
@@ -677,7 +721,7 @@ class Clock:
         return n, k, reverse, rc
 
 
-def add_integrates(rng, ops, clock, syncFirst, pure=False, no_exact=False):
+def add_integrates(rng, ops, clock, syncFirst, pure=False, no_exact=False, no_cb=False):
     """replace some ops by integrate calls; returns (driver tokens, python ops)"""
     toks, pyops = [], []
     for op in ops:
@@ -692,7 +736,7 @@ def add_integrates(rng, ops, clock, syncFirst, pure=False, no_exact=False):
             n, k, rev, rc = clock.integrate(tmax, exact)
             toks.append("i:%d:%d:%d:%d:%d:%d:%d" % (n, k, exact, rev, syncFirst[0], syncFirst[1], rc))
             pyops.append(("i", tmax, exact, kind))
-        elif op == "s" and rng.chance(0.25):
+        elif op == "s" and rng.chance(0.25) and not no_cb:
             pre, post = rng.choice([(1, 0), (0, 1), (1, 1)])
             clock.step()
             toks.append("c:%d:%d" % (pre, post))
@@ -738,6 +782,262 @@ def real_step_with_callbacks(W, A, pre, post):
     A._post_timestep_modifications = FT()
 
 
+# ----------------------------------------------------------------------------- pairwise covering arrays
+ROLES = ["plain", "massless0", "massless1", "massive0", "massive1", "single", "zeroactive"]
+FEATURES = ["none", "G", "soft", "long", "huge", "hyper", "many"]
+EVENTS = ["s", "y", "r", "p", "f", "g", "c", "ie", "in", "ir", "iz", "ms", "mk"]
+PAIRS = {"seen": set(), "adj": set(), "tri": set()}
+
+
+def family_factors(family):
+    """the explicit factors of one replay family and their finite value sets"""
+    common = {"roles": ROLES, "neg": [0, 1], "feature": FEATURES}
+    if family == "whfast":
+        f = {"coord": [0, 1, 2, 3], "kernel": [0, 1, 2, 3], "corrector": [0, 3, 5, 7, 11, 17], "corrector2": [0, 1],
+             "mode": ["safe", "unsafe", "keep"], "event": [e for e in EVENTS if e != "g"]}
+    elif family == "saba":
+        f = {"type": sorted(SABA_ROWS), "mode": ["safe", "unsafe", "keep"], "event": [e for e in EVENTS if e != "g"]}
+    elif family == "var":
+        f = {"nvar": [1, 2], "mode": ["safe", "unsafe", "keep"], "event": [e for e in EVENTS if e != "g"]}
+        common = {"roles": ["plain", "zeroactive"], "neg": [0, 1], "feature": [x for x in FEATURES if x != "many"]}
+    elif family == "mercurius":
+        f = {"mode": ["safe", "unsafe"], "event": [e for e in EVENTS if e != "mk"]}
+        common = {"roles": ROLES, "neg": [0, 1], "feature": ["none", "G", "soft", "huge"]}
+    elif family == "mercuriusEnc":
+        # no 'ie' (shortened last step) and no callback steps here: both were observed to make the IAS15 sub-integration
+        # of an encounter spin forever (corpus/C09/mercurius_integrate_hang.json, last_hang.txt) — termination is not C09's
+        f = {"mode": ["safe", "unsafe"], "event": [e for e in EVENTS if e not in ("mk", "ie", "c")]}
+        common = {"neg": [0, 1]}
+    else:  # eos
+        f = {"phi0": list(range(9)), "phi1": list(range(9)), "n": [1, 2, 3], "mode": ["safe", "unsafe"], "event": ["s", "y", "r", "ms"]}
+    f.update(common)
+    return f
+
+
+def case_ok(family, cs):
+    """constraints: combinations the code rejects or that have no meaning — listed, never silent"""
+    if family == "whfast":
+        if cs.get("kernel") and cs.get("coord", 0) != 0:
+            return False            # whfast_init: "Non-standard kernel requires Jacobi coordinates."
+        if cs.get("corrector") and cs.get("coord", 0) not in (0, 3):
+            return False            # whfast_init: correctors only with Jacobi / barycentric coordinates
+    if cs.get("feature") == "many" and cs.get("roles") in ("plain", "zeroactive"):
+        return False                # >128 particles are test particles here: needs a role with test particles
+    if cs.get("event") == "mk" and cs.get("mode") == "safe":
+        return False                # keep_unsynchronized=1 with safe_mode=1 is an error configuration (whfast_init / saba part1)
+    return True
+
+
+def pair_ok(family, f, a, g, b):
+    cs = {f: a, g: b}
+    return case_ok(family, cs)
+
+
+def all_pairs(family):
+    F = family_factors(family)
+    names = sorted(F)
+    ok, excl = [], 0
+    for i, f in enumerate(names):
+        for g in names[i + 1:]:
+            for a in F[f]:
+                for b in F[g]:
+                    if pair_ok(family, f, a, g, b):
+                        ok.append((family, f, a, g, b))
+                    else:
+                        excl += 1
+    return ok, excl
+
+
+def covering_array(family, rng, ncand=60):
+    """greedy all-pairs: repeatedly take, from random candidates, the case covering most uncovered pairs"""
+    F = family_factors(family)
+    names = sorted(F)
+    need = set(p[1:] for p in all_pairs(family)[0])
+    cases = []
+    while need:
+        best, bestn = None, -1
+        seedp = next(iter(need))            # guarantee progress: candidates contain one uncovered pair
+        for _ in range(ncand):
+            cs = {f: rng.choice(F[f]) for f in names}
+            cs[seedp[0]], cs[seedp[2]] = seedp[1], seedp[3]
+            if not case_ok(family, cs):
+                continue
+            n = sum(1 for i, f in enumerate(names) for g in names[i + 1:] if (f, cs[f], g, cs[g]) in need)
+            if n > bestn:
+                best, bestn = cs, n
+        if best is None:
+            need.discard(seedp)             # cannot be completed to a legal case: counts as excluded below
+            continue
+        cases.append(best)
+        for i, f in enumerate(names):
+            for g in names[i + 1:]:
+                need.discard((f, best[f], g, best[g]))
+    return cases
+
+
+def three_way(family, rng):
+    """full factorial of the three factors closest to the mechanism (mode x event x dt sign), the other
+    factors random — thorough tier"""
+    F = family_factors(family)
+    out = []
+    for m in F["mode"]:
+        for e in F["event"]:
+            for ng in F.get("neg", [0]):
+                for _ in range(20):
+                    cs = {f: rng.choice(F[f]) for f in F}
+                    cs.update(mode=m, event=e, neg=ng)
+                    if case_ok(family, cs):
+                        out.append(cs)
+                        break
+    return out
+
+
+def record_case(family, cs, events):
+    names = sorted(cs)
+    for i, f in enumerate(names):
+        for g in names[i + 1:]:
+            PAIRS["seen"].add((family, f, cs[f], g, cs[g]))
+    for a, b in zip(events, events[1:]):
+        PAIRS["adj"].add((family, a, b))
+    if "mode" in cs and "event" in cs:
+        PAIRS["tri"].add((family, cs["mode"], cs["event"], cs.get("neg", 0)))
+
+
+def build_events(rng, family, cs, length=None):
+    """an op sequence (event names) that contains the required event and prefers adjacency pairs
+    (event A directly followed by event B) not yet generated for this family"""
+    alpha = family_factors(family)["event"]
+    n = length or rng.randint(6, 10)
+    ev = ["s"] if rng.chance(0.8) else []
+    mode = cs.get("mode", "unsafe")
+    while len(ev) < n:
+        prev = ev[-1] if ev else None
+        cand = [e for e in alpha if not (e == "mk" and family in ("mercurius", "mercuriusEnc", "eos"))]
+        fresh = [e for e in cand if prev is not None and (family, prev, e) not in PAIRS["adj"] and (family, prev, e) not in PAIRS.setdefault("adjplan", set())]
+        e = rng.choice(fresh) if fresh and rng.chance(0.8) else rng.choice(cand + ["s", "s", "y"])
+        if prev is not None:
+            PAIRS["adjplan"].add((family, prev, e))
+        ev.append(e)
+    if cs.get("event") and cs["event"] not in ev:
+        ev.insert(rng.randint(1, len(ev)), cs["event"])
+    if "s" not in ev and "c" not in ev:
+        ev.append("s")
+    return ev
+
+
+def materialize(rng, events, clock, K, mode, family):
+    """event names -> (driver tokens, python ops); integrate calls get their (n, k, …) from the clock emulation;
+    ms / mk toggle safe_mode / keep_unsynchronized unless that would create the error configuration"""
+    toks, pyops, done = [], [], []
+    safe, keep = int(mode == "safe"), int(mode == "keep")
+    for e in events:
+        if e in ("ie", "in", "ir", "iz"):
+            adt = abs(clock.dt)
+            kind, exact = {"ie": (rng.choice(["lt", "gt"]), 1), "in": (rng.choice(["lt", "eq", "gt"]), 0),
+                           "ir": ("rev", int(rng.chance(0.5)) if family != "mercuriusEnc" else 0), "iz": ("zero", 1)}[e]
+            delta = {"lt": rng.uniform(0.05, 0.95) * adt, "eq": adt, "gt": rng.uniform(1.05, 4.5) * adt,
+                     "rev": -rng.uniform(0.05, 3.5) * adt, "zero": 0.0}[kind]
+            tmax = clock.t + math.copysign(1., clock.dt) * delta
+            n, k, rev, rc = clock.integrate(tmax, exact)
+            toks.append("i:%d:%d:%d:%d:%d:%d:%d" % (n, k, exact, rev, K["syncFirst"], K["forceSync"], rc))
+            pyops.append(("i", tmax, exact, kind))
+        elif e == "c":
+            pre, post = rng.choice([(1, 0), (0, 1), (1, 1)])
+            clock.step()
+            toks.append("c:%d:%d" % (pre, post))
+            pyops.append(("c", pre, post))
+        elif e == "ms":
+            if safe == 0 and keep == 1:
+                continue                          # would be keep_unsynchronized=1 with safe_mode=1
+            safe = 1 - safe
+            toks.append("ms%d" % safe)
+            pyops.append(("ms", safe))
+        elif e == "mk":
+            if family in ("mercurius", "mercuriusEnc", "eos") or (keep == 0 and safe == 1):
+                continue
+            keep = 1 - keep
+            toks.append("mk%d" % keep)
+            pyops.append(("mk", keep))
+        else:
+            if e == "s":
+                clock.step()
+            toks.append(e)
+            pyops.append((e,))
+        done.append(e)
+    return toks, pyops, done
+
+
+def dry_done(family, cs, events):
+    """which events survive materialisation (toggles that would create the error configuration are skipped)"""
+    class _K(dict):
+        def __missing__(self, k):
+            return 0
+    return materialize(SplitMix(1), events, Clock(0.1, False), _K(), cs.get("mode", "unsafe"), family)[2]
+
+
+def family_specs(c, family):
+    """the cases of this run, each with its op sequence (`_events`): thorough = the full pairwise array + the
+    3-way block + a fill that makes every feasible event adjacency (A directly followed by B) occur; quick = a
+    slice of the array rotated by VERIF_SEED (every pair is generated within 4 consecutive seeds)"""
+    rng = SplitMix(977 + sum(ord(ch) for ch in family))      # the array itself does not depend on the seed
+    arr = covering_array(family, rng)
+    if c.thorough:
+        arr = arr + three_way(family, rng)
+    PAIRS.setdefault("adjplan", set())
+    adj = set()
+    for cs in arr:
+        cs["_events"] = build_events(rng, family, cs, length=(rng.randint(8, 14) if family == "mercuriusEnc" else rng.randint(3, 6) if family == "eos" else None))
+        d = dry_done(family, cs, cs["_events"])
+        adj |= set(zip(d, d[1:]))
+    alpha = family_factors(family)["event"]
+    infeasible = []
+    if c.thorough:
+        F = family_factors(family)
+        for a in alpha:
+            for b in alpha:
+                if (a, b) in adj:
+                    continue
+                placed = False
+                for m in F["mode"]:
+                    for pre in (["s"], ["s", "mk"], ["s", "ms"], []):
+                        for _ in range(10):
+                            cs = {f: rng.choice(F[f]) for f in F}
+                            cs.update(mode=m, event=a)
+                            if case_ok(family, cs):
+                                break
+                        else:
+                            continue
+                        ev = pre + [a, b, "s"]
+                        d = dry_done(family, cs, ev)
+                        if (a, b) in set(zip(d, d[1:])):
+                            cs["_events"] = ev
+                            arr.append(cs)
+                            adj |= set(zip(d, d[1:]))
+                            placed = True
+                            break
+                    if placed:
+                        break
+                if not placed:
+                    infeasible.append((a, b))
+    PAIRS.setdefault("adj_infeasible", {})[family] = infeasible
+    if c.thorough:
+        return arr
+    return [cs for i, cs in enumerate(arr) if i % 4 == c.seed % 4]
+
+
+def spec_core(cs):
+    return {k: v for k, v in cs.items() if not k.startswith("_")}
+
+
+def set_mode_flags(s, family, what, b):
+    ri = {"whfast": s.ri_whfast, "var": s.ri_whfast, "saba": s.ri_saba, "mercurius": s.ri_mercurius, "mercuriusEnc": s.ri_mercurius,
+          "eos": s.ri_eos}[family]
+    if what == "ms":
+        ri.safe_mode = b
+    else:
+        ri.keep_unsynchronized = b
+
+
 def whfast_setup(o):
     def f(s):
         w = s.ri_whfast
@@ -762,17 +1062,24 @@ def replay(c, W, exe, ncases, family):
     """family: 'whfast' | 'saba'.  Twin simulations: A runs the real API calls, B executes the
     model's primitive-call list; everything persisted must agree bit for bit after every op."""
     lines, cases = [], []
-    for case in range(ncases):
+    specs = family_specs(c, family)
+    for case in range(len(specs) + ncases):
         rng = c.rng.fork()
-        system = gen_system(rng, force=(FORCED[case] if case < len(FORCED) else None))
-        ops = gen_ops(rng, rng.randint(3, 9))
-        if "s" not in ops:
-            ops.append("s")
-        toks, ops = add_integrates(rng, ops, Clock(system["dt"], family in ("whfast", "var"), system.get("t0", 0.0)), (W.K["syncFirst"], W.K["forceSync"]))
+        cs = specs[case] if case < len(specs) else None
+        if cs is not None:
+            system = gen_system(rng, spec=cs)
+            toks, ops, done = materialize(rng, cs["_events"], Clock(system["dt"], family in ("whfast", "var"), system.get("t0", 0.0)), W.K, cs["mode"], family)
+            record_case(family, spec_core(cs), done)
+        else:
+            system = gen_system(rng, force=(FORCED[case - len(specs)] if case - len(specs) < len(FORCED) else None))
+            ops = gen_ops(rng, rng.randint(3, 9))
+            if "s" not in ops:
+                ops.append("s")
+            toks, ops = add_integrates(rng, ops, Clock(system["dt"], family in ("whfast", "var"), system.get("t0", 0.0)), (W.K["syncFirst"], W.K["forceSync"]))
         if family == "var":
-            mode = rng.choice(["safe", "unsafe", "keep", "keep"])
+            mode = cs["mode"] if cs else rng.choice(["safe", "unsafe", "keep", "keep"])
             o = dict(coord=0, kernel=0, corrector=0, corrector2=0, safe=int(mode == "safe"), keep=int(mode == "keep"),
-                     nvar=rng.randint(1, 2))
+                     nvar=(cs["nvar"] if cs else rng.randint(1, 2)))
             no_testparticles(system)
             system["dims"].append("variational particles (1st order, non-zero)")
             lines.append("V %d %d 1 0 0 %s" % (o["safe"], o["keep"], " ".join(toks)))
@@ -785,14 +1092,17 @@ def replay(c, W, exe, ncases, family):
             key = ("var", o["nvar"], o["safe"], o["keep"])
         elif family == "whfast":
             o = whfast_options(rng)
+            if cs:
+                o = dict(coord=cs["coord"], kernel=cs["kernel"], corrector=cs["corrector"], corrector2=cs["corrector2"],
+                         safe=int(cs["mode"] == "safe"), keep=int(cs["mode"] == "keep"))
             lines.append("W %d %d %d %d %d %d %d 1 0 0 %s" % (o["coord"], o["kernel"], o["corrector"], o["corrector2"],
                                                               o["safe"], o["keep"], W.K["c2fixed"], " ".join(toks)))
             setup = whfast_setup(o)
             key = (o["coord"], o["kernel"], o["corrector"], o["corrector2"], o["safe"], o["keep"])
         else:
-            mode = rng.choice(["safe", "unsafe", "unsafe", "keep", "keep"])
-            o = dict(type=rng.choice(sorted(SABA_ROWS)), safe=int(mode == "safe"), keep=int(mode == "keep"))
-            if rng.chance(0.3):
+            mode = cs["mode"] if cs else rng.choice(["safe", "unsafe", "unsafe", "keep", "keep"])
+            o = dict(type=(cs["type"] if cs else rng.choice(sorted(SABA_ROWS))), safe=int(mode == "safe"), keep=int(mode == "keep"))
+            if cs is None and rng.chance(0.3):
                 no_testparticles(system)
             lines.append("S %d %d %d %d 1 0 0 %s" % (o["type"], o["safe"], o["keep"], W.K["copyInside"], " ".join(toks)))
             setup = saba_setup(o)
@@ -850,6 +1160,10 @@ def replay(c, W, exe, ncases, family):
             # real code on A
             st["in_cb"] = (op == "c")
             st["post_cb"] = (op == "c" and opt[2] == 1)
+            if op in ("ms", "mk"):
+                set_mode_flags(A, family, op, opt[1])
+                set_mode_flags(B, family, op, opt[1])
+                dim("safe_mode toggled mid-run" if op == "ms" else "keep_unsynchronized toggled mid-run")
             if op == "c":
                 real_step_with_callbacks(W, A, opt[1], opt[2])
             elif op == "i":
@@ -905,11 +1219,19 @@ def replay_mercurius(c, W, exe, ncases, coarse=False):
     """coarse: systems with close encounters; part2 (whose encounter prediction / IAS15 sub-integration
     are static) is called as a whole with the flags of the model, everything else through primitives"""
     lines, cases = [], []
-    for case in range(ncases):
+    fam = "mercuriusEnc" if coarse else "mercurius"
+    specs = family_specs(c, fam)
+    for case in range(len(specs) + ncases):
         rng = c.rng.fork()
-        system = gen_system(rng, physics=True)    # no steps longer than a period etc.: dcrit ~ 0.4 v dt would turn every step into an encounter step
+        cs = specs[case] if case < len(specs) else None
+        system = gen_system(rng, physics=True) if (cs is None or coarse) else gen_system(rng, spec=cs)
+        # (no steps longer than a period etc.: dcrit ~ 0.4 v dt would turn every step into an encounter step)
         if coarse:
             system = gen_crossing(rng)
+            if cs is not None and cs["neg"]:
+                system["dt"] = -system["dt"]
+                system["particles"] = [(q[0], q[1], q[2], q[3], -q[4], -q[5], -q[6]) for q in system["particles"]]
+                system["dims"].append("dt < 0")
         else:
             # wide, light systems: no close encounters (the encounter branch is static C, not replayable)
             system["particles"] = [p if i == 0 else (p[0] * 0.01,) + p[1:] for i, p in enumerate(system["particles"])]
@@ -924,7 +1246,12 @@ def replay_mercurius(c, W, exe, ncases, coarse=False):
         if "s" not in ops:
             ops.append("s")
         safe = int(rng.chance(0.35))
-        toks, ops = add_integrates(rng, ops, Clock(system["dt"], False, system.get("t0", 0.0)), (W.K["syncFirst"], W.K["forceSync"]), no_exact=coarse)
+        if cs is not None:
+            safe = int(cs["mode"] == "safe")
+            toks, ops, done = materialize(rng, cs["_events"], Clock(system["dt"], False, system.get("t0", 0.0)), W.K, cs["mode"], fam)
+            record_case(fam, spec_core(cs), done)
+        else:
+            toks, ops = add_integrates(rng, ops, Clock(system["dt"], False, system.get("t0", 0.0)), (W.K["syncFirst"], W.K["forceSync"]), no_exact=coarse, no_cb=coarse)
         lines.append("%s %d 1 0 0 0 0 %s" % ("MC" if coarse else "M", safe, " ".join(toks)))
         dims_of(system, "replay mercurius")
         cases.append((safe, system, ops, toks))
@@ -942,10 +1269,18 @@ def replay_mercurius(c, W, exe, ncases, coarse=False):
         return d
 
     nint = 0
+    prng0 = SplitMix(c.seed * 31 + 5)
     for (safe, system, ops, toks), line, model in zip(cases, lines, out):
-        beat("replay_mercurius " + line + " " + json.dumps(system))
-        def setup(s):
+        beat("replay_mercurius " + line + " ##" + json.dumps({"system": system, "ops": ops, "safe": safe}))
+        rch = prng0.choice([3.0, 3.0, 2.0, 4.5])
+        Lname = prng0.choice(["mercury", "mercury", "C4", "C5", "infinity"])
+
+        def setup(s, rch=rch, Lname=Lname):
             s.ri_mercurius.safe_mode = safe
+            s.ri_mercurius.r_crit_hill = rch
+            s.ri_mercurius.L = Lname
+        dim("mercurius option L=%s" % Lname)
+        dim("mercurius option r_crit_hill=%s" % rch)
         A = W.sim(system, "mercurius", setup)
         B = W.sim(system, "mercurius", setup)
         st = {}
@@ -958,6 +1293,10 @@ def replay_mercurius(c, W, exe, ncases, coarse=False):
             mflags = [int(x) for x in fl.split()]
             st["in_cb"] = (op == "c")
             st["post_cb"] = (op == "c" and opt[2] == 1)
+            if op in ("ms", "mk"):
+                set_mode_flags(A, "mercurius", op, opt[1])
+                set_mode_flags(B, "mercurius", op, opt[1])
+                dim("safe_mode toggled mid-run" if op == "ms" else "keep_unsynchronized toggled mid-run")
             if op == "c":
                 real_step_with_callbacks(W, A, opt[1], opt[2])
             elif op == "i":
@@ -1118,21 +1457,28 @@ def replay_eos(c, W, exe):
     """all 9 x 9 phi0/phi1 pairs (thorough; a random third in the quick tier) x n in {1,2,3}:
     the model's full operator list, executed with EosState, vs reb_simulation_step / synchronize"""
     lines, cases = [], []
-    pairs = [(a, b) for a in range(9) for b in range(9)]
-    for (p0, p1) in pairs:
-        if not c.thorough and not c.rng.chance(0.34):
-            continue
-        for n in ((1, 2, 3) if c.thorough else (c.rng.randint(1, 3),)):
-            rng = c.rng.fork()
-            system = gen_system(rng)
-            system["dt"] *= 0.3
-            safe = int(rng.chance(0.3))
-            ops = [rng.choice(["s", "s", "s", "y", "y", "r"]) for _ in range(rng.randint(3, 6))]
-            if "s" not in ops:
-                ops[0] = "s"
-            lines.append("E %d %d %d %d 1 %s %s" % (p0, p1, n, safe, d2h(system["dt"]), " ".join(ops)))
-            dims_of(system, "replay eos")
-            cases.append((p0, p1, n, safe, system, ops))
+    specs = list(family_specs(c, "eos"))
+    if c.thorough:
+        # besides the pairwise array: every phi0 x phi1 pair with every n
+        specs += [dict(phi0=a_, phi1=b_, n=n_, mode=c.rng.choice(["safe", "unsafe"]), roles=c.rng.choice(ROLES), neg=c.rng.choice([0, 1]),
+                       feature=c.rng.choice(FEATURES), event=c.rng.choice(["s", "y", "r", "ms"]))
+                  for a_ in range(9) for b_ in range(9) for n_ in (1, 2, 3)]
+        specs = [x for x in specs if case_ok("eos", x)]
+    for cs in specs:
+        rng = c.rng.fork()
+        p0, p1, n = cs["phi0"], cs["phi1"], cs["n"]
+        system = gen_system(rng, spec=cs)
+        if cs["feature"] == "many":
+            system["particles"] = system["particles"][:24]           # keep the pure-Python operators affordable
+            system["N_active"] = min(system["N_active"], 24) if system["N_active"] != -1 else -1
+        system["dt"] *= 0.3
+        safe = int(cs["mode"] == "safe")
+        events = cs.get("_events") or build_events(rng, "eos", cs, length=rng.randint(3, 6))
+        toks, ops, done = materialize(rng, events, Clock(system["dt"], False, system.get("t0", 0.0)), W.K, cs["mode"], "eos")
+        record_case("eos", spec_core(cs), done)
+        lines.append("E %d %d %d %d 1 %s %s" % (p0, p1, n, safe, d2h(system["dt"]), " ".join(toks)))
+        dims_of(system, "replay eos")
+        cases.append((p0, p1, n, safe, system, ops))
     out = run_driver(exe, lines)
     if len(out) != len(lines):
         c.corr_break("drv_c09 returned %d lines for %d EOS cases" % (len(out), len(lines)))
@@ -1145,10 +1491,15 @@ def replay_eos(c, W, exe):
         A = W.sim(system, "eos", setup)
         B = W.sim(system, "eos", setup)
         segs = model.split(";")
-        for k, (op, seg) in enumerate(zip(ops, segs)):
+        for k, (opt, seg) in enumerate(zip(ops, segs)):
+            op = opt[0]
             toks, _, fl = seg.partition("@")
             toks = [t for t in toks.split(",") if t]
-            if op == "s":
+            if op == "ms":
+                A.ri_eos.safe_mode = opt[1]
+                B.ri_eos.safe_mode = opt[1]
+                dim("safe_mode toggled mid-run")
+            elif op == "s":
                 W.lib.reb_simulation_step(ctypes.byref(A))
                 # part1: gravity := NONE; the acceleration pass of reb_simulation_step; then the schedule
                 B._gravity = 0
@@ -1166,7 +1517,7 @@ def replay_eos(c, W, exe):
             if a != b or A.ri_eos.is_synchronized != int(fl):
                 what = "is_synchronized" if a == b else [q for q in a if a[q] != b[q]][0]
                 c.corr_break("EOS operator-schedule replay differs from reb_simulation_%s in %s (phi0=%d phi1=%d n=%d safe_mode=%d, op %d of '%s')"
-                             % ("step" if op == "s" else "synchronize", what, p0, p1, n, safe, k, " ".join(ops)),
+                             % ("step" if op == "s" else "synchronize", what, p0, p1, n, safe, k, " ".join(str(o_[0]) for o_ in ops)),
                              {"driver_line": line, "op_index": k, "system": system, "model_ops_head": toks[:12], "n_model_ops": len(toks)})
                 return
             c.count(("replay", "eos", p0, p1, n, safe, op), nontrivial=(op in "sy"))
@@ -1511,7 +1862,14 @@ def api_sequences(c, W, cfgs):
             sh = run_seq("safe", True)[0] if integ == "eos" else None
             c.count(("api-seq", label, q, tuple(p[:2] for p in plan)))
             tainted = False
-            for j, ((ca, ta), (cu, tu)) in enumerate(zip(sa, su)):
+            runs = [("unsafe", su)]
+            if has_keep:
+                # keep_unsynchronized=1 x repeated exact-finish outputs x sign reversal: after the fixes the C API
+                # promises the safe-mode result here too (it synchronises for real before it changes dt)
+                runs.append(("keep_unsynchronized", run_seq("keep", False)[0]))
+                dim("keep_unsynchronized=1 x integrate call patterns vs safe mode")
+            for modename, su in runs:
+              for j, ((ca, ta), (cu, tu)) in enumerate(zip(sa, su)):
                 sx = max(abs(v) for p in ca for v in p[:3])
                 sv = max(abs(v) for p in ca for v in p[3:])
                 err = max(max(abs(a[k] - b[k]) / (sx if k < 3 else sv) for k in range(6)) for a, b in zip(ca, cu))
@@ -1525,8 +1883,8 @@ def api_sequences(c, W, cfgs):
                     nrev += 1
                 if ta != tu or not err <= tol:
                     key = "C09:integrate-reverse-unsynchronized" if rev_unsync else "api-sequence:" + fam
-                    c.violation(key, "%s: the call sequence %s in unsafe mode differs from safe mode by %.3g relative after call %d (integrate kind %s, exact_finish_time=%d, unsynchronised on entry: %s)"
-                                % (label, [p[:2] for p in plan], err, j, kind, ex, unsync_entry),
+                    c.violation(key + (":keep" if modename != "unsafe" else ""), "%s: the call sequence %s in %s mode differs from safe mode by %.3g relative after call %d (integrate kind %s, exact_finish_time=%d, unsynchronised on entry: %s)"
+                                % (label, [p[:2] for p in plan], modename, err, j, kind, ex, unsync_entry),
                                 {"integrator": integ, "label": label, "system": system, "plan": plan, "call_index": j,
                                  "relative_difference": err, "t_safe": ta, "t_unsafe": tu})
                     tainted = True
@@ -2073,6 +2431,218 @@ REQUIRED_DIMS = [
     "centre of mass offset and moving", "hyperbolic body", "N > 128 (allocation boundary)"]
 
 
+# every public attribute of the integrator structs (extracted from rebound/integrators/*.py): where the op alphabet /
+# the factors / the compared state cover it.  An attribute missing here is a broken obligation.
+FLAG_MAP = {
+    ("whfast", "corrector"): "factor corrector (0,3,5,7,11,17)", ("whfast", "corrector2"): "factor corrector2",
+    ("whfast", "kernel"): "factor kernel", ("whfast", "coordinates"): "factor coord",
+    ("whfast", "recalculate_coordinates_this_timestep"): "op f (setRecalc); set by the callback steps; compared after every op",
+    ("whfast", "safe_mode"): "factor mode + op ms (toggled mid-run)", ("whfast", "keep_unsynchronized"): "factor mode + op mk (toggled mid-run)",
+    ("whfast", "is_synchronized"): "state flag of the model, compared after every op",
+    ("saba", "type"): "factor type (18 values)", ("saba", "safe_mode"): "factor mode + op ms", ("saba", "keep_unsynchronized"): "factor mode + op mk",
+    ("saba", "is_synchronized"): "state flag of the model, compared after every op",
+    ("mercurius", "L"): "option, sampled per case (mercury / C4 / C5 / infinity)", ("mercurius", "r_crit_hill"): "option, sampled per case (3, 2, 4.5)",
+    ("mercurius", "recalculate_coordinates_this_timestep"): "op f; compared after every op",
+    ("mercurius", "recalculate_r_crit_this_timestep"): "op g (setRcrit); compared after every op",
+    ("mercurius", "safe_mode"): "factor mode + op ms", ("mercurius", "is_synchronized"): "state flag of the model, compared after every op",
+    ("mercurius", "mode"): "internal (0 outside the encounter sub-integration); set by the model's mSetup primitive",
+    ("eos", "n"): "factor n", ("eos", "phi0"): "factor phi0", ("eos", "phi1"): "factor phi1", ("eos", "safe_mode"): "factor mode + op ms",
+    ("eos", "is_synchronized"): "state flag of the model, compared after every op",
+}
+
+# public C functions (DLLEXPORT in rebound.h) that reach the deferred-synchronisation mechanism -> how this run
+# exercises them ("lib:<name>" = called through ctypes by the check, "py:<name>" = through the Python method)
+ENTRY_MAP = {
+    "reb_simulation_step": "lib:reb_simulation_step", "reb_simulation_steps": "lib:reb_simulation_steps",
+    "reb_simulation_integrate": "lib:reb_simulation_integrate", "reb_simulation_synchronize": "lib:reb_simulation_synchronize",
+    "reb_simulation_reset_integrator": "lib:reb_simulation_reset_integrator", "reb_simulation_energy": "lib:reb_simulation_energy",
+    "reb_simulation_update_acceleration": "lib:reb_simulation_update_acceleration",
+    "reb_simulation_angular_momentum": "py:Simulation.angular_momentum", "reb_simulation_com": "py:Simulation.com",
+    "reb_simulation_copy": "py:Simulation.copy", "reb_simulation_copy_with_messages": "py:Simulation.copy",
+    "reb_simulation_save_to_file": "py:Simulation.save_to_file", "reb_simulation_save_to_file_interval": "py:Simulation.save_to_file(interval)",
+    "reb_simulation_save_to_file_walltime": "n/a: wall-clock triggered output, same write path as _interval",
+    "reb_simulation_save_to_file_step": "py:Simulation.save_to_file(step)",
+    "reb_simulation_create_from_file": "py:Simulation(file)", "reb_simulation_create_from_simulationarchive": "py:Simulationarchive[i]",
+    "reb_simulation_create_from_simulationarchive_with_messages": "py:Simulationarchive.getSimulation",
+    "reb_simulationarchive_create_from_file": "py:Simulationarchive(file)", "reb_simulationarchive_create_from_file_with_messages": "py:Simulationarchive(file)",
+}
+PY_ENTRIES = ["Simulation.step", "Simulation.steps", "Simulation.integrate", "Simulation.synchronize", "Simulation.copy", "Simulation.save_to_file",
+              "Simulation.save_to_file(interval)", "Simulation.save_to_file(step)", "Simulation(file)", "Simulation.energy", "Simulation.angular_momentum",
+              "Simulation.orbits", "Simulation.com", "pickle", "Simulationarchive(file)", "Simulationarchive[i]", "Simulationarchive.getSimulation",
+              "Simulationarchive.getSimulations"]
+
+
+def emit_flags_and_entries(c, W):
+    # (a) struct attributes
+    found = []
+    for cls in ("whfast", "saba", "mercurius", "eos"):
+        src = open(os.path.join(common.REPO, "rebound", "integrators", cls + ".py")).read()
+        names = set(re.findall(r'\("([A-Za-z]\w*)",\s*ctypes', src))
+        names |= set(re.findall(r"@property\s*\n\s*def (\w+)\(self\)", src))
+        found += [(cls, n) for n in sorted(names) if not n.startswith("_")]
+    c.cov["integrator_struct_attributes"] = {"extracted": len(found), "mapped": sum(1 for f in found if f in FLAG_MAP),
+                                             "map": {"%s.%s" % f: FLAG_MAP.get(f, "NOT COVERED") for f in found}}
+    if len(found) < 22:
+        c.broken.append("proof obligation: only %d public attributes extracted from rebound/integrators/*.py (expected >= 22)" % len(found))
+    for f in found:
+        if f not in FLAG_MAP:
+            c.broken.append("proof obligation: integrator attribute ri_%s.%s is neither a factor, nor an op of the alphabet, nor compared state" % f)
+    # (b) entry points
+    hdr = open(os.path.join(common.REPO, "src", "rebound.h")).read()
+    pat = r"DLLEXPORT[^;(]*?\b(reb_simulation_(?:steps?|integrate|synchronize|reset_integrator|energy|angular_momentum|com|copy\w*|save_to_file\w*|update_acceleration|create_from_\w+)|reb_simulationarchive_create_from_file\w*)\s*\("
+    entries = sorted(set(re.findall(pat, hdr)))
+    status = {}
+    for e_ in entries:
+        how = ENTRY_MAP.get(e_)
+        if how is None:
+            c.broken.append("proof obligation: public function %s reaches synchronize / the step machine but is not classified in ENTRY_MAP" % e_)
+            status[e_] = "UNCLASSIFIED"
+        elif how.startswith("lib:"):
+            n = W.lib.used.get(how[4:], 0)
+            status[e_] = n
+            if n == 0:
+                c.broken.append("proof obligation: entry point %s not exercised in this run" % e_)
+        elif how.startswith("py:"):
+            n = PYUSED.get(how[3:], 0)
+            status[e_] = n
+            if n == 0:
+                c.broken.append("proof obligation: entry point %s (via %s) not exercised in this run" % (e_, how[3:]))
+        else:
+            status[e_] = how
+    if len(entries) < 18:
+        c.broken.append("proof obligation: only %d entry points extracted from rebound.h (expected >= 18)" % len(entries))
+    for n_ in PY_ENTRIES:
+        if PYUSED.get(n_, 0) == 0:
+            c.broken.append("proof obligation: Python entry point %s not exercised in this run" % n_)
+    c.cov["entry_points"] = {"c_extracted": len(entries), "c_status": status, "python": {n_: PYUSED.get(n_, 0) for n_ in PY_ENTRIES}}
+
+
+def entry_smoke(c, W):
+    """the Python spellings of the entry points, each with the core oracle where it applies: the same calls made
+    through the Python methods in unsafe mode equal the ctypes calls bit for bit / safe mode to rounding"""
+    import pickle, warnings
+    rng = c.rng.fork()
+    tmpdir = tempfile.mkdtemp(prefix="c09e.", dir=os.environ.get("VERIF_TMP", "/tmp"))
+    common._scratch.append(tmpdir)
+    for integ, mkset in (("whfast", lambda m: whfast_setup(dict(coord=0, kernel=0, corrector=0, corrector2=0, safe=int(m == "safe"), keep=0))),
+                         ("saba", lambda m: saba_setup(dict(type=6, safe=int(m == "safe"), keep=0))),
+                         ("mercurius", lambda m: (lambda s_: setattr(s_.ri_mercurius, "safe_mode", int(m == "safe")))),
+                         ("eos", lambda m: (lambda s_: setattr(s_.ri_eos, "safe_mode", int(m == "safe"))))):
+        system = gen_system(rng, physics=True)
+        system["dt"] = abs(system["dt"])
+        if integ == "mercurius":
+            system["particles"] = [p if i == 0 else (p[0] * 0.03,) + p[1:] for i, p in enumerate(system["particles"])]
+        A = W.sim(system, integ, mkset("unsafe"))
+        B = W.sim(system, integ, mkset("unsafe"))
+        # Python methods on A, ctypes on B
+        A.step(); pyused("Simulation.step")
+        A.steps(4); pyused("Simulation.steps")
+        for _ in range(5):
+            W.lib.reb_simulation_step(ctypes.byref(B))
+        A.energy(); pyused("Simulation.energy")
+        A.angular_momentum(); pyused("Simulation.angular_momentum")
+        try:
+            A.orbits()
+        except Exception:
+            pass
+        pyused("Simulation.orbits")
+        A.com(); pyused("Simulation.com")
+        W.lib.reb_simulation_steps(ctypes.byref(B), ctypes.c_uint(3))
+        A.steps(3)
+        tend = A.t + 2.6 * A.dt
+        A.integrate(tend); pyused("Simulation.integrate")
+        B.exact_finish_time = 1
+        W.lib.reb_simulation_integrate(ctypes.byref(B), tend)
+        A.steps(2)
+        W.lib.reb_simulation_steps(ctypes.byref(B), ctypes.c_uint(2))
+        A.synchronize(); pyused("Simulation.synchronize")
+        W.lib.reb_simulation_synchronize(ctypes.byref(B))
+        c.count(("entry-smoke", integ))
+        if final_state(W, A, integ) != final_state(W, B, integ):
+            c.violation("entry-point:%s" % integ, "%s: step/steps/integrate/synchronize through the Python methods differ from the same calls through ctypes (unsafe mode)" % integ,
+                        {"integrator": integ, "system": system})
+        # restore paths of an unsynchronised state: every public spelling, then synchronize == the original
+        C0 = W.sim(system, integ, mkset("unsafe"))
+        fn = os.path.join(tmpdir, "e_%s.bin" % integ)
+        for f_ in (fn, fn + ".i", fn + ".s"):
+            if os.path.exists(f_):
+                os.remove(f_)
+        C0.save_to_file(fn + ".i", interval=3.2 * C0.dt, delete_file=True); pyused("Simulation.save_to_file(interval)")
+        C0.integrate(C0.t + 6.5 * C0.dt, exact_finish_time=0)
+        C1 = W.sim(system, integ, mkset("unsafe"))
+        C1.save_to_file(fn + ".s", step=2, delete_file=True); pyused("Simulation.save_to_file(step)")
+        C1.integrate(C1.t + 6.5 * C1.dt, exact_finish_time=0)
+        R0 = W.sim(system, integ, mkset("unsafe"))
+        R0.steps(5)
+        R0.save_to_file(fn); pyused("Simulation.save_to_file")
+        clones = {"Simulation.copy": R0.copy(), "Simulation(file)": W.rb.Simulation(fn), "pickle": pickle.loads(pickle.dumps(R0))}
+        with warnings.catch_warnings():
+            warnings.simplefilter("ignore")
+            sa = W.rb.Simulationarchive(fn); pyused("Simulationarchive(file)")
+            clones["Simulationarchive[i]"] = sa[0]
+            o_ = sa.getSimulation(sa.tmax, mode="snapshot", keep_unsynchronized=0)
+            clones["Simulationarchive.getSimulation"] = sa.getSimulation(sa.tmax, mode="snapshot", keep_unsynchronized=(1 if integ in ("whfast", "saba") else 0))
+            clones["Simulationarchive.getSimulations"] = list(sa.getSimulations([sa.tmax], mode="snapshot", keep_unsynchronized=(1 if integ in ("whfast", "saba") else 0)))[0]
+            for fsa in (fn + ".i", fn + ".s"):
+                sb = W.rb.Simulationarchive(fsa)
+                if len(sb) < 2:
+                    c.violation("entry-point:archive:%s" % integ, "%s: save_to_file(interval/step) produced %d snapshots" % (integ, len(sb)), {"integrator": integ, "system": system})
+        R0.steps(3)
+        R0.synchronize()
+        want = final_state(W, R0, integ)
+        want.pop("p_jh", None)
+        cw = coords(W, R0)
+        for name, cl in clones.items():
+            pyused(name)
+            cl.steps(3)
+            cl.synchronize()
+            got = final_state(W, cl, integ)
+            got.pop("p_jh", None)
+            c.count(("entry-restore", integ, name))
+            if name.startswith("Simulationarchive.getSimulation") and integ in ("mercurius", "eos"):
+                # getSimulation(mode='snapshot') synchronises what it returns; without a keep_unsynchronized option
+                # (MERCURIUS, EOS) the continuation then agrees to rounding (EOS: truncation), not bit for bit
+                cg = coords(W, cl)
+                sc = max(abs(v) for q in cw for v in q)
+                e_ = max(abs(a[k] - b[k]) for a, b in zip(cw, cg) for k in range(6)) / sc
+                if not e_ <= (1e-10 if integ == "mercurius" else 1e-3):
+                    c.violation("entry-point:restore:%s:%s" % (integ, name), "%s: a simulation restored through %s (synchronised by it) and continued differs from the original by %.3g" % (integ, name, e_),
+                                {"integrator": integ, "system": system, "path": name})
+                continue
+            if got != want:
+                c.violation("entry-point:restore:%s:%s" % (integ, name), "%s: an unsynchronised simulation restored through %s and continued differs from the original (bitwise)" % (integ, name),
+                            {"integrator": integ, "system": system, "path": name})
+
+
+def emit_pairs(c):
+    """coverage.pairs: factor-value pairs, event adjacencies and (thorough) mode x event x dt-sign triples generated
+    by the replay families of this run; uncovered applicable ones in the thorough tier are a broken obligation"""
+    total = excluded = 0
+    missing = []
+    per = {}
+    for fam in ("whfast", "saba", "var", "mercurius", "mercuriusEnc", "eos"):
+        ok, ex = all_pairs(fam)
+        alpha = family_factors(fam)["event"]
+        infeas = set(PAIRS.get("adj_infeasible", {}).get(fam, []))
+        adj_all = [(fam, a, b) for a in alpha for b in alpha if (a, b) not in infeas]
+        F = family_factors(fam)
+        tri_all = [(fam, m, e, ng) for m in F["mode"] for e in F["event"] for ng in F.get("neg", [0])
+                   if case_ok(fam, dict(mode=m, event=e))] if c.thorough else []
+        cov = sum(1 for q in ok if q in PAIRS["seen"]) + sum(1 for q in adj_all if q in PAIRS["adj"]) + sum(1 for q in tri_all if q in PAIRS["tri"])
+        tot = len(ok) + len(adj_all) + len(tri_all)
+        per[fam] = {"covered": cov, "total": tot, "factor_pairs": len(ok), "adjacency_pairs": len(adj_all), "triples": len(tri_all),
+                    "excluded_by_constraints": ex, "adjacency_infeasible": sorted(infeas)}
+        total += tot
+        excluded += ex + len(infeas)
+        missing += [q for q in ok if q not in PAIRS["seen"]][:5] + [("adjacency",) + q for q in adj_all if q not in PAIRS["adj"]][:5] + \
+            [("triple",) + q for q in tri_all if q not in PAIRS["tri"]][:5]
+    covered = sum(v["covered"] for v in per.values())
+    c.cov["pairs"] = {"covered": covered, "total": total, "excluded": excluded, "per_family": per, "missing": [list(map(str, q)) for q in missing[:30]],
+                      "factors": {fam: {k: len(v) for k, v in family_factors(fam).items()} for fam in per}}
+    if c.thorough and covered < total:
+        c.broken.append("proof obligation: pairwise coverage incomplete in the thorough tier: %d of %d (first missing: %s)" % (covered, total, missing[:3]))
+
+
 def emit_dimensions(c):
     c.cov["dimensions"] = {k: v for k, v in sorted(DIMS.items())}
     for name in REQUIRED_DIMS:
@@ -2102,7 +2672,7 @@ def run(c):
                       "physics theorems assume exact group laws of the primitives (true in exact arithmetic, to rounding in IEEE)",
                       "WHFast512 is not compiled on this host (no AVX512): not covered",
                       "variational particles / MEGNO, additional forces, collisions are outside the model"]
-    _HEART["limit"] = 240.0
+    _HEART["limit"] = float(os.environ.get("C09_HANG_LIMIT", "240"))
     beat("footprints")
     footprints(c, W, exe)
     replay(c, W, exe, 8000 if c.thorough else 60, "whfast")
@@ -2113,7 +2683,10 @@ def run(c):
     replay_eos(c, W, exe)
     probe_first_call(c, d)
     search(c, W)
+    entry_smoke(c, W)
     emit_dimensions(c)
+    emit_pairs(c)
+    emit_flags_and_entries(c, W)
 
 
 if __name__ == "__main__":
